@@ -60,13 +60,13 @@ public:
 		if (LOCALNAME(e) == "send" && HAS_ATTR(e, X("id"))) {
 			std::string id = ATTR(e, X("id"));
 			std::string d = HAS_ATTR(e, X("delay")) ? ATTR(e, X("delay")) : "0ms";
-			logLine("{\"k\":\"send\",\"i\":" + id.substr(1) + ",\"delay\":" + std::to_string(atoi(d.c_str())) + ",\"t\":" + std::to_string(nowMs()) + "}");
+			logLine("{\"k\":\"send\",\"i\":" + ATTR(e, X("event")).substr(2) + ",\"id\":" + id.substr(1) + ",\"delay\":" + std::to_string(atoi(d.c_str())) + ",\"t\":" + std::to_string(nowMs()) + "}");
 		}
 	}
 	void afterExecutingContent(const std::string&, const DOMElement* e) {
 		if (LOCALNAME(e) == "cancel") {
 			std::string id = ATTR(e, X("sendid"));
-			logLine("{\"k\":\"cancel\",\"i\":" + id.substr(1) + ",\"t\":" + std::to_string(nowMs()) + "}");
+			logLine("{\"k\":\"cancel\",\"id\":" + id.substr(1) + ",\"t\":" + std::to_string(nowMs()) + "}");
 		}
 	}
 	void beforeProcessingEvent(const std::string&, const Event& ev) {
@@ -86,10 +86,12 @@ static void oneRun(unsigned seed, FILE* out) {
 	unsigned s = seed;
 	int n = FORCED ? 1 : 2 + rnd(s) % 5;
 	std::string doc = "<scxml xmlns=\"http://www.w3.org/2005/07/scxml\" version=\"1.0\" datamodel=\"null\"><state id=\"a\"><onentry>";
-	std::vector<int> delay(n + 1);
+	std::vector<int> delay(n + 1), group(n + 1);
 	for (int i = 1; i <= n; i++) {
 		delay[i] = FORCED ? 20 : DELAYS[rnd(s) % 6];
-		doc += "<send event=\"d." + std::to_string(i) + "\" delay=\"" + std::to_string(delay[i]) + "ms\" id=\"i" + std::to_string(i) + "\"/>";
+		// every third send or so re-uses the sendid of the previous one: <cancel> has to cancel all of them
+		group[i] = (!FORCED && i > 1 && rnd(s) % 3 == 0) ? group[i - 1] : i;
+		doc += "<send event=\"d." + std::to_string(i) + "\" delay=\"" + std::to_string(delay[i]) + "ms\" id=\"i" + std::to_string(group[i]) + "\"/>";
 	}
 	doc += "</onentry>";
 	for (int i = 1; i <= n; i++)
@@ -100,7 +102,7 @@ static void oneRun(unsigned seed, FILE* out) {
 	std::vector<std::pair<long, int> > plan;
 	if (!FORCED) {
 		for (int i = 1; i <= n; i++)
-			if (rnd(s) % 3 == 0) plan.push_back(std::make_pair((long)(rnd(s) % 100), i));
+			if (group[i] == i && rnd(s) % 3 == 0) plan.push_back(std::make_pair((long)(rnd(s) % 100), i));
 	}
 	T0 = std::chrono::steady_clock::now();
 	Interpreter interp = Interpreter::fromXML(doc, "file:///verif/mtd.scxml");
